@@ -230,7 +230,7 @@ theorem maxAbsInColumn_total {m : Mat K} {n k : Nat} (hm : WFn m n) (hk : k < n)
   obtain ⟨⟨idx, mx⟩, hs, h0, hle, hmx⟩ := forM'_inv
     (fun t (s : Nat × K) => 0 ≤ s.2 ∧ (∀ k', k ≤ k' → k' < t → |ent m k' k| ≤ s.2) ∧
       (s.2 ≠ 0 → k ≤ s.1 ∧ s.1 < n ∧ s.2 = |ent m s.1 k|))
-    k n ((0 : Nat), (0 : K))
+    k n ((k : Nat), (0 : K))
     (fun (idx, mx) i => do
       let x ← m.get i k
       let ax := ScalarExt.mag x
